@@ -168,6 +168,65 @@ theorem closed_connection_is_forgotten {P : Params} (hv : P.v = repaired) (httl 
     rw [hop, mem_rm] at hd
     exact hd.2 (hlast d hd.1 hdc)
 
+/-! ## Lookups are read-only, however their two storage round trips interleave with other events -/
+
+/-- **A lookup has no effect.**  Neither round trip of `FindClientNode` (the index read `lookBegin`, the record
+read `lookEnd`) changes the shared store or any node's registry — whatever happens between them. -/
+theorem lookup_is_read_only (P : Params) (st : St) (j x : Nat) :
+    (step P st (.lookBegin j x)).store = st.store ∧ (step P st (.lookBegin j x)).nodes = st.nodes ∧
+    (step P st (.lookEnd j x)).store = st.store ∧ (step P st (.lookEnd j x)).nodes = st.nodes ∧
+    (step P st (.lookBegin j x)).now = st.now ∧ (step P st (.lookEnd j x)).now = st.now :=
+  ⟨rfl, rfl, rfl, rfl, rfl, rfl⟩
+
+/-- A lookup whose two round trips are adjacent answers what `findClientNode` (the atomic lookup the
+observations use) answers. -/
+theorem unsplit_lookup {P : Params} (hv : P.v = repaired) (httl : 0 < P.ttl) (evs : List Ev) (j x : Nat)
+    (hx : x ≠ 0) :
+    lookupAnswer P (lookupBegin (reach P evs).2 j x) j x =
+      findClientNode P (reach P evs).2.now (reach P evs).2.store x := by
+  have h := reach_inv hv httl evs
+  unfold lookupAnswer lookupBegin findClientNode indexRead
+  simp only [FMap.lookup_insert_eq, hx, if_false]
+  cases hf : find (reach P evs).2.now (reach P evs).2.store (.client x) with
+  | none => rfl
+  | some e =>
+    obtain ⟨c, hval, _⟩ := h.store.client x e (find_some hf)
+    simp only [hval]
+
+def isLookup : Ev → Bool
+  | .lookBegin _ _ => true
+  | .lookEnd _ _ => true
+  | _ => false
+
+/-- **Lookups never make a client unfindable.**  After any history in which `x`'s registration on `c` is valid,
+any number of lookups by any nodes for any clients — begun, ended, left in flight, in any order — leaves the
+lookup at `(c.node, c)`.  (Together with `lookup_finds_current_node`, whose histories contain split lookups
+interleaved with every other event.) -/
+theorem lookups_keep_findable {P : Params} (hv : P.v = repaired) (httl : 0 < P.ttl) (evs : List Ev)
+    {x : Nat} {c : Conn} {u : Nat}
+    (hl : LMap.lookup (reach P evs).1.latest x = some (c, u)) (hu : (reach P evs).1.now ≤ u)
+    (qs : List Ev) (hq : ∀ e, e ∈ qs → isLookup e = true) :
+    findClientNode P (reach P (evs ++ qs)).2.now (reach P (evs ++ qs)).2.store x = .found c.node c := by
+  have key : ∀ (qs : List Ev) (S : SpecSt) (M : St), (∀ e, e ∈ qs → isLookup e = true) →
+      (reachFrom P S M qs).1 = S := by
+    intro qs
+    induction qs with
+    | nil => intro S M _; rfl
+    | cons e r ih =>
+      intro S M hq
+      have he := hq e (List.mem_cons_self ..)
+      simp only [reachFrom]
+      have hs : specStep P.ttl S (stepOk M e) e = S := by
+        cases e <;> simp [isLookup] at he <;> rfl
+      rw [hs]
+      exact ih _ _ (fun d hd => hq d (List.mem_cons_of_mem _ hd))
+  have he : reach P (evs ++ qs) = reachFrom P (reach P evs).1 (reach P evs).2 qs := reachFrom_append P _ _ evs _
+  have hinv := reachFrom_inv hv httl qs _ _ (reach_inv hv httl evs)
+  rw [he]
+  have hk := key qs (reach P evs).1 (reach P evs).2 hq
+  rw [hk] at hinv
+  exact find_live hv hinv hl hu
+
 /-- **Heartbeats keep the registration alive.**  After any history in which `x`'s registration on `c` is
 valid, any number of rounds "clock advances by at most `ttl`, then `c` sends a heartbeat" and a final advance of
 at most `ttl` leave the lookup at `(c.node, c)`. -/
@@ -392,6 +451,13 @@ and no registry query in between or before (the extractor lists `getControlConne
 `clientRegistry.GetByConnID/GetByClientID` too; none occurs). -/
 theorem skel_CloseConnection : Gen.Skel.CloseConnection =
     ["delete", "RemoveControlConnection", "RemoveTunnelConnection", "connStateStore.UnregisterConnection"] := by decide
+
+/-- `FindClientNode` reads only: one `Get` of the index, then `GetConnectionState` (one `Get` of the record; its only
+write is the removal of the very record it found expired — a key that names that connection id and nothing else). -/
+theorem skel_lookup_reads :
+    Gen.Skel.FindClientNode_storage = ["storage.Get", "GetConnectionState"] ∧
+    Gen.Skel.GetConnectionState_storage = ["storage.Get", "storage.Delete"] ∧
+    Gen.Skel.clientIndexPointsTo_storage = ["storage.Get"] := by decide
 
 /-- **Every production path by which a connection ends reaches `CloseConnection`, and `CloseConnection` unregisters
 without consulting the registry** (no `GetByConnID`/`getControlConnectionByConnID` before the unregister: the
